@@ -9,6 +9,8 @@ package suites
 //   snapshot-write-reached-live   a write through a snapshot changed what the getters return
 //   live-event-changed-snapshot   a later server event changed an object already handed out
 //   aliasing                      a snapshot shares a list array / permission map / struct with the tracked state
+//   snapshots-share-memory        a write through one snapshot changed another one the client never aliased with it
+//   getter-results-disagree       LookupUser / LookupChannel of a tracked name differs from the element of Users() / Channels()
 //   member-getter-live-object     the same three, for objects returned by User.Channels /
 //                                 Channel.Users (state.go), which return the tracked objects themselves
 
@@ -196,6 +198,37 @@ func heapRequery(c *girc.Client) string {
 	sort.Strings(us)
 	sort.Strings(cs)
 	return "U=" + strings.Join(us, "|") + "/C=" + strings.Join(cs, "|")
+}
+
+// heapGettersAgree evaluates "every getter shows the same": the element of Users() /
+// Channels() for a name and what LookupUser / LookupChannel return for it. Names the lookups
+// refuse ("") are skipped.
+func heapGettersAgree(c *girc.Client) string {
+	for _, u := range c.Users() {
+		if u.Nick == "" {
+			continue
+		}
+		l := c.LookupUser(u.Nick)
+		if l == nil {
+			return "LookupUser(" + strconv.Quote(u.Nick) + ") = nil for an element of Users()"
+		}
+		if a, b := heapDumpUser(u), heapDumpUser(l); a != b {
+			return "Users() has " + a + ", LookupUser has " + b
+		}
+	}
+	for _, ch := range c.Channels() {
+		if ch.Name == "" {
+			continue
+		}
+		l := c.LookupChannel(ch.Name)
+		if l == nil {
+			return "LookupChannel(" + strconv.Quote(ch.Name) + ") = nil for an element of Channels()"
+		}
+		if a, b := heapDumpChan(ch), heapDumpChan(l); a != b {
+			return "Channels() has " + a + ", LookupChannel has " + b
+		}
+	}
+	return ""
 }
 
 type heapSnap struct {
@@ -397,6 +430,7 @@ func heapRun(c Case) Result {
 		return class
 	}
 	var nE, nS, nM, nonNil, applied int
+	clientAliased := false // the client itself made two snapshots share memory (M alias)
 	add := func(s *heapSnap) {
 		s.want = s.value()
 		snaps = append(snaps, s)
@@ -462,11 +496,20 @@ func heapRun(c Case) Result {
 				s.c.Modes.Apply(s.c.Modes.Parse(op.Flags, op.Args))
 			}
 			applied++
+			if op.Tag == "M" && op.Field == "alias" {
+				clientAliased = true
+			}
 			if after := heapRequery(cl); after != before {
 				report(classOf(s, "snapshot-write-reached-live"),
 					fmt.Sprintf("op %d (%s %s on snapshot %d) changed the tracked state from %s to %s", i, op.Tag, op.Field+op.Flags, op.ID, before, after))
 			}
-			for _, t := range snaps { // the client's own writes (also through its own aliases) are expected
+			if m := heapGettersAgree(cl); m != "" {
+				report(classOf(s, "getter-results-disagree"), fmt.Sprintf("after op %d (%s %s on snapshot %d): %s", i, op.Tag, op.Field+op.Flags, op.ID, m))
+			}
+			for j, t := range snaps { // the client's own writes (also through its own aliases) are expected
+				if got := t.value(); got != t.want && t != s && !clientAliased && !t.leaky && !s.leaky {
+					report("snapshots-share-memory", fmt.Sprintf("op %d (%s %s on snapshot %d) changed snapshot %d from %s to %s", i, op.Tag, op.Field+op.Flags, op.ID, j, t.want, got))
+				}
 				t.want = t.value()
 			}
 		case "R":
@@ -491,6 +534,29 @@ func heapRun(c Case) Result {
 		out = append(out, "I"+strconv.Itoa(j)+":"+v)
 	}
 	out = append(out, "R"+heapRequery(cl))
+	if !clientAliased { // objects handed out by different getter calls must not share memory either
+		seen := map[uintptr]int{}
+		for j, s := range snaps {
+			if s.isNil() || s.leaky {
+				continue
+			}
+			var ptrs []uintptr
+			if s.u != nil {
+				ptrs = []uintptr{reflect.ValueOf(s.u).Pointer(), listPtr(s.u.ChannelList), s.u.Perms.VerifPermsIdentity()}
+			} else {
+				ptrs = []uintptr{reflect.ValueOf(s.c).Pointer(), listPtr(s.c.UserList)}
+			}
+			for _, p := range ptrs {
+				if p == 0 {
+					continue
+				}
+				if k, dup := seen[p]; dup && k != j {
+					report("snapshots-share-memory", fmt.Sprintf("snapshots %d and %d share memory (%s / %s)", k, j, snaps[k].value(), s.value()))
+				}
+				seen[p] = j
+			}
+		}
+	}
 	bucket := func(n int) string {
 		switch {
 		case n == 0:
@@ -586,10 +652,18 @@ func heapNamesList(r *rand.Rand) string {
 // heapPrelude: the client is welcomed, joins one or two channels and learns who is there.
 func heapPrelude(r *rand.Rand) []heapOp {
 	ops := []heapOp{{Tag: "E", Ev: Ev{HasSrc: true, Name: "srv", Cmd: "001", Params: []string{"me", "welcome"}}}}
+	same := ""
+	if r.Intn(4) == 0 { // the same members everywhere: equal lists in different objects
+		same = heapNamesList(r)
+	}
 	for i := 0; i <= r.Intn(3); i++ {
 		ch := heapChans[i]
+		names := same
+		if names == "" {
+			names = heapNamesList(r)
+		}
 		ops = append(ops, heapOp{Tag: "E", Ev: Ev{HasSrc: true, Name: "me", Ident: "u", Host: "h", Cmd: "JOIN", Params: []string{ch}}})
-		ops = append(ops, heapOp{Tag: "E", Ev: Ev{HasSrc: true, Name: "srv", Cmd: "353", Params: []string{"me", "=", ch, "me " + heapNamesList(r)}}})
+		ops = append(ops, heapOp{Tag: "E", Ev: Ev{HasSrc: true, Name: "srv", Cmd: "353", Params: []string{"me", "=", ch, "me " + names}}})
 	}
 	return ops
 }
@@ -695,6 +769,9 @@ func heapFixed() []Case {
 			heapOp{Tag: "A", ID: 1, Flags: "+m"}, heapE("me", "PART", "#a"), heapOp{Tag: "R"}),
 		mk(heapOp{Tag: "S", Kind: "user", Name: "alice"}, heapOp{Tag: "M", ID: 0, Field: "nilperms"}, heapE("x", "MODE", "#a", "+v", "alice"),
 			heapOp{Tag: "S", Kind: "user", Name: "ALICE"}, heapOp{Tag: "S", Kind: "user", Name: ""}, heapOp{Tag: "S", Kind: "chan", Name: "#zz"}),
+		// equal lists in different objects: #a and #c have the same members
+		mk(heapE("me", "JOIN", "#c"), heapE("srv", "353", "me", "=", "#c", "me @alice +bob carol"), heapOp{Tag: "S", Kind: "chans"},
+			heapOp{Tag: "M", ID: 0, Field: "elem", Index: 1, Value: "zzz"}, heapOp{Tag: "S", Kind: "users"}, heapOp{Tag: "M", ID: 4, Field: "elem", Index: 0, Value: "#q"}),
 		heapEncode("me", "user", nil),
 	}
 }
